@@ -103,15 +103,15 @@ def sliceBranch (spec : List (Nat × List String)) (axis : Nat) : Option (List S
   | some b => some b.2
   | none => (spec.find? (fun b => b.1 == 99)).map (·.2)
 
-/-- `get_slice` as its source reads: the branch for `axis` (else the `else` branch), the element expression interpreted -/
+/-- `get_slice` as its source reads (the translator writes `v1` for the index parameter, `shape` / `loop` for the two loop variables): the branch for `axis` (else the `else` branch), the element expression interpreted -/
 def getSliceBy {β : Type} (spec : List (Nat × List String)) (shapes : List (List (List β))) (axis idx : Nat) : Option (List β) :=
   match sliceBranch spec axis with
   | some [e] =>
-    if e == "self.shapes[index].operations" then (shapes[idx]?).map operations else none
+    if e == "self.shapes[v1].operations" then (shapes[idx]?).map operations else none
   | some [e, it] =>
-    if e == "shape.grid[loop][index]" && it == "range(len(shape.grid))" then
+    if e == "shape.grid[loop][v1]" && it == "range(len(shape.grid))" then
       (allSome (shapes.map (fun g => allSome (g.map (fun row => row[idx]?))))).map List.flatten
-    else if e == "shape.grid[index][loop]" && it == "range(len(shape.grid[index]))" then
+    else if e == "shape.grid[v1][loop]" && it == "range(len(shape.grid[v1]))" then
       (allSome (shapes.map (fun g => g[idx]?))).map List.flatten
     else none
   | _ => none
